@@ -45,7 +45,11 @@ func (n *Node) BrowseName(ctx context.Context) (*ua.QualifiedName, error) {
 	if err != nil {
 		return nil, err
 	}
-	return v.Value().(*ua.QualifiedName), nil
+	qn, ok := v.Value().(*ua.QualifiedName)
+	if !ok {
+		return nil, ua.StatusBadTypeMismatch
+	}
+	return qn, nil
 }
 
 // Description returns the description of the node.
@@ -54,7 +58,11 @@ func (n *Node) Description(ctx context.Context) (*ua.LocalizedText, error) {
 	if err != nil {
 		return nil, err
 	}
-	return v.Value().(*ua.LocalizedText), nil
+	lt, ok := v.Value().(*ua.LocalizedText)
+	if !ok {
+		return nil, ua.StatusBadTypeMismatch
+	}
+	return lt, nil
 }
 
 // DisplayName returns the display name of the node.
@@ -63,7 +71,11 @@ func (n *Node) DisplayName(ctx context.Context) (*ua.LocalizedText, error) {
 	if err != nil {
 		return nil, err
 	}
-	return v.Value().(*ua.LocalizedText), nil
+	lt, ok := v.Value().(*ua.LocalizedText)
+	if !ok {
+		return nil, ua.StatusBadTypeMismatch
+	}
+	return lt, nil
 }
 
 // AccessLevel returns the access level of the node.
@@ -74,7 +86,11 @@ func (n *Node) AccessLevel(ctx context.Context) (ua.AccessLevelType, error) {
 	if err != nil {
 		return 0, err
 	}
-	return ua.AccessLevelType(v.Value().(uint8)), nil
+	al, ok := v.Value().(uint8)
+	if !ok {
+		return 0, ua.StatusBadTypeMismatch
+	}
+	return ua.AccessLevelType(al), nil
 }
 
 // HasAccessLevel returns true if all bits from mask are
@@ -93,7 +109,11 @@ func (n *Node) UserAccessLevel(ctx context.Context) (ua.AccessLevelType, error) 
 	if err != nil {
 		return 0, err
 	}
-	return ua.AccessLevelType(v.Value().(uint8)), nil
+	al, ok := v.Value().(uint8)
+	if !ok {
+		return 0, ua.StatusBadTypeMismatch
+	}
+	return ua.AccessLevelType(al), nil
 }
 
 // HasUserAccessLevel returns true if all bits from mask are
